@@ -48,5 +48,7 @@ EmitLine ==
   (Emit /\ hist # <<>>) =>
     PrintT("REPLAY " \o ToJson([ ops |-> hist, n |-> N, headc |-> HeadCommit, branch |-> BranchReported,
              interesting |-> Interesting,
-             exp |-> [f \in Formats |-> SetToSeq(Expected(f))] ]))
+             exp |-> [f \in Formats |-> SetToSeq(Expected(f))],
+             \* what a linked work tree detached at commit c must report
+             expAt |-> [c \in 1..N |-> [f \in Formats |-> SetToSeq(ExpectedFrom(c, f))]] ]))
 =============================================================================
